@@ -419,6 +419,11 @@ def run(ctx: Ctx) -> None:
             else:
                 rep.ok("C11.R14", f_.qname, desc, f_.loc(lp))
     rep.floor("C11.R14", n14, 1)
+    from . import storerules as _S11
+    rep.rule("C11.R15", "as C08.R13: a path is made well-formed or refused when it is made - one spelling per path, and the path without segment ('/', a prefix of every "
+                        "other path) is refused by DDSPathUtils.create, i.e. before anything runs")
+    n15 = _S11.one_spelling_per_path(ctx, "C11.R15")
+    rep.floor("C11.R15", n15, 1)
 
     # ---- R13: the functions of every accepted module are followed ----
     if rep.prop == "C11":
